@@ -82,10 +82,20 @@ def rule_lp_bounds(ctx: Ctx, rule: str = "lp-free-bounds") -> None:
     """Every linprog call passes bounds=(None, None): scipy's default x >= 0 would silently change every answer."""
     prog = ctx.prog
     n = 0
+    # a helper that only forwards to linprog (`return linprog(...)`): its call sites are LP call sites too, each as good
+    # as the helper's own call, which is judged below like any other
+    wrappers = set()
+    for fi in prog.all_functions():
+        body = [st for st in getattr(fi.node, "body", []) if not (isinstance(st, ast.Expr) and isinstance(st.value, ast.Constant))] if not isinstance(fi.node, ast.Lambda) else []
+        if len(body) == 1 and isinstance(body[0], ast.Return) and isinstance(body[0].value, ast.Call) and norm(body[0].value.func).endswith("linprog"):
+            wrappers.add(fi.name)
     for fi in prog.all_functions():
         if fi.module.base == "plots":
             continue
         for node in ast.walk(fi.node):
+            if isinstance(node, ast.Call) and norm(node.func).split(".")[-1] in wrappers:
+                n += 1
+                ctx.ok(rule, fi.key, "LP call in %s goes through %s" % (fi.key, norm(node.func)), nontrivial=False)
             if isinstance(node, ast.Call) and norm(node.func).endswith("linprog"):
                 n += 1
                 b = [k.value for k in node.keywords if k.arg == "bounds"]
@@ -525,6 +535,10 @@ def _every_row(ctx: Ctx, rule: str, key: str, callee: str, mat: str, vec: str, s
     for p in ps:
         stack: List[int] = []
         for e in p.events:
+            # loops of inlined helpers are not the loop over the rows; a call made by an inlined helper (a wrapper
+            # around the solver) is a call of this iteration
+            if e["kind"] == "call" and e["callee"].endswith(callee) and stack:
+                row_loops.add(stack[0])
             if e["func"] != key:
                 continue
             if e["kind"] == "loop-iter":
@@ -532,8 +546,6 @@ def _every_row(ctx: Ctx, rule: str, key: str, callee: str, mat: str, vec: str, s
                     stack.append(e["node"].lineno)
             elif e["kind"] in ("loop-body-end", "loop-continue", "loop-break") and stack:
                 stack.pop()
-            elif e["kind"] == "call" and e["callee"].endswith(callee) and stack:
-                row_loops.add(stack[0])
     if not row_loops:
         # comprehension form: the returned value is built by a comprehension whose element makes the call
         comps = set()
@@ -1602,6 +1614,15 @@ def rule_get_variable_bounds(ctx: Ctx, rule: str = "bounds-order") -> None:
         construct = "PolyhedralTermList.optimize: the LP is over self's matrix and bounds"
         okc = len(t2p) == 1 and t2p[0]["args"] and t2p[0]["args"][0] == ("param", "self") and _strip_wrappers(a_ub) == ("item", t2p[0]["result"], 1) and _strip_wrappers(b_ub) == ("item", t2p[0]["result"], 2)
         (ctx.ok(rule, key, construct) if okc else ctx.violation(rule, key, construct, "A_ub=%s b_ub=%s" % (show(a_ub, 3), show(b_ub, 3)), where=fi.where))
+        # the columns of the LP are the variables the conversion was shown: the objective has to be among what it is
+        # shown, or a variable that only the objective mentions (unbounded in its direction) silently drops out
+        construct = "PolyhedralTermList.optimize: every variable of the objective is a column of the LP"
+        isobj = lambda y: y == ("param", "objective")  # noqa: E731
+        shown = len(t2p) == 1 and any(mentions(a, isobj) for a in list(t2p[0]["args"]) + [v_ for _k, v_ in t2p[0]["kws"]])
+        if shown:
+            ctx.ok(rule, key, construct)
+        else:
+            ctx.violation(rule, key, construct, "the matrices are built from %s alone: a variable that occurs in the objective but in no constraint gets no column, so an unbounded problem is answered with a finite optimum" % [show(a, 3) for e in t2p for a in e["args"]], where=fi.where)
 
 
 # ------------------------------------------------ Kaykobad context guards (C04 g)
@@ -2016,6 +2037,43 @@ def rule_reduce_loop_discipline(ctx: Ctx, rule: str = "reduce-loop") -> None:
         ctx.violation(rule, key, construct, verdict[1], where=fi.where)
     else:
         ctx.cannot_decide(rule, key, construct, verdict[1])
+
+
+def rule_lp_emptiness_shortcuts(ctx: Ctx, rule: str = "lp-shortcut") -> None:
+    """C11/C03: is_polytope_empty is handed matrices that were widened by the columns of another list, so a row may be
+    all zeros (0 <= b) although there are columns.  With at least one row and one column, an answer that comes neither
+    from the LP nor from an examination of the bounds cannot be right: the single row 0*x <= -1 is empty, 0*x <= 1 is not,
+    and nothing but b tells them apart."""
+    prog = ctx.prog
+    key = PTL + "is_polytope_empty"
+    fi = prog.func(key)
+
+    def shape_atom(v, idx):
+        return isinstance(v, tuple) and v and v[0] in ("item", "sub") and isinstance(v[1], tuple) and v[1][0] == "attr" and v[1][2] == "shape" and v[1][1] == ("param", "a") and (v[2] == idx or v[2] == const(idx))
+
+    def scen(v):
+        # at least one row, at least one column
+        if isinstance(v, tuple) and v and v[0] == "cmp" and v[1] in ("Eq", "NotEq", "Gt", "LtE", "Lt", "GtE") and v[3] == const(0):
+            x = v[2]
+            rows = shape_atom(x, 0) or (isinstance(x, tuple) and x[0] == "call" and x[1] == "len" and x[2] and x[2][0] == ("param", "a"))
+            if rows or shape_atom(x, 1):
+                return const({"Eq": False, "NotEq": True, "Gt": True, "LtE": False, "Lt": False, "GtE": True}[v[1]])
+        return None
+
+    construct = "is_polytope_empty: with rows and columns present the answer comes from the LP or from the bounds"
+    ps = [p for p in Sim(prog, fi, assume=status_assume(None, scen), loop_iters=(0, 1)).paths() if p.terminal == "return"]
+    if not ps:
+        ctx.cannot_decide(rule, key, construct, "no returning path")
+        return
+    isb = lambda y: y == ("param", "b")  # noqa: E731
+    for p in ps:
+        if p.calls("linprog"):
+            continue
+        looked = any(e["kind"] == "branch" and mentions(e["test"], isb) for e in p.events) or (p.value is not None and mentions(p.value, isb))
+        if not looked:
+            ctx.violation(rule, key, construct, "returns %s without the LP and without looking at b when %s: a single row 0*x <= b (columns contributed by the other list of a comparison) is empty exactly when b < 0" % (show(p.value, 3), p.label()[:160] or "(always)"), where=fi.where)
+            return
+    ctx.ok(rule, key, construct + " (%d paths)" % len(ps))
 
 
 def _position_names(fi: FuncInfo) -> Set[str]:
